@@ -188,9 +188,47 @@ def run(pid: str, tier: str, seed: int, selftest=False, replay=None) -> int:
         jobs.append((f"toglobal:{seed}:{k}", text, "pipe:alloc-to-global", None))
     for k in range(40 if quick else 400):
         jobs.append((f"cleared:{seed}:{k}", gen_func(rng, True), "pipe:set-memory-space,realize-memref-casts,clear-memory-space", None))
+    # run-time shapes: arguments with dynamic dimensions in any position (a dynamic size behind a static one, a static one between two
+    # dynamic ones ...); the buffers the compiler puts next to the accelerator must have the run-time shape of what they stand in for
+    for k in range(40 if quick else 500):
+        shp = rng.choice(["?x4", "3x?", "?x?", "?x2x?", "?", "2x?x3", "?x3x?", "2x?"])
+        dims = shp.split("x")
+        rank = len(dims)
+        ty = f"memref<{shp}xi8>"
+        idm = "affine_map<(" + ", ".join(f"d{i}" for i in range(rank)) + ") -> (" + ", ".join(f"d{i}" for i in range(rank)) + ")>"
+        iters = ", ".join(['"parallel"'] * rank)
+        body, tagn = [], 0
+        for _ in range(rng.randint(1, 3)):
+            tagn += 1
+            x, y, z = (rng.choice(["%a", "%b", "%c"]) for _ in range(3))
+            ind = "    "
+            loop = rng.random() < 0.2
+            if loop:
+                body.append("    scf.for %i = %c0 to %n step %c1 {")
+                ind = "      "
+            body.append(f'{ind}linalg.generic {{indexing_maps = [{idm}, {idm}, {idm}], iterator_types = [{iters}]}} ins({x}, {y} : {ty}, {ty}) outs({z} : {ty}) attrs = {{tag = {tagn} : i32}} {{')
+            body.append(f"{ind}^bb0(%x : i8, %y : i8, %z : i8):")
+            body.append(f"{ind}  %m = arith.muli %x, %y : i8")
+            body.append(f"{ind}  linalg.yield %m : i8")
+            body.append(f"{ind}}}")
+            if loop:
+                body.append("    }")
+        text = ("builtin.module {\n  func.func public @f(%a : " + ty + ", %b : " + ty + ", %c : " + ty + ", %n : index) {\n"
+                "    %c0 = arith.constant 0 : index\n    %c1 = arith.constant 1 : index\n" + "\n".join(body) + "\n    func.return\n  }\n}\n")
+        descdom = []
+        for alt in range(2):
+            pool = rng.sample([5, 6, 7, 9, 11], 3)
+            sizes = [pool.pop() if d == "?" else int(d) for d in dims]
+            strides = [int(np.prod(sizes[d + 1:])) for d in range(rank)]
+            one = {"valid": 1, "base": 0, "off": 0, "sizes": sizes, "strides": strides}
+            descdom.append([dict(one), dict(one), dict(one), {"valid": 0, "base": 0, "off": 0, "sizes": [], "strides": []}])
+        jobs.append((f"dynshape:{seed}:{k}:{shp}", text, True, {"argdom": [[900001], [900002], [900003], [0, 1, 2]], "descdom": descdom}))
     prev_text = None
     svcases = []
     for ji, (name, text, with_spaces, wargdom) in enumerate(jobs):
+        wdesc = None
+        if isinstance(wargdom, dict):
+            wargdom, wdesc = wargdom["argdom"], wargdom["descdom"]
         own = text
         if name.startswith("gen:") and ji % 3 == 0 and prev_text is not None and with_spaces == prev_ws:
             text = repo.add_companion(text, prev_text)       # one pass run over two functions; @f is judged
@@ -246,7 +284,7 @@ def run(pid: str, tier: str, seed: int, selftest=False, replay=None) -> int:
             rep.violation(name + "|cleared", "memory spaces / tiled layouts remain after clear-memory-space", {"source": text, "after": str(m)[:3000]})
         needl1 = 1 if (with_spaces is True or with_spaces == "l1") else 0
         cases.append({"name": name, "A": ia, "B": ib, "argdom": wargdom or [[900001], [900002], [900003], [0, 1, 2, 3]], "opqdom": [[0]],
-                      "extra": {"needl1": needl1}, "text": text, "after": str(fb)[:4000], "pipe": pipe})
+                      "extra": {"needl1": needl1}, "text": text, "after": str(fb)[:4000], "pipe": pipe, **({"descdom": wdesc} if wdesc else {})})
     rep.rule = (f"{n} generated functions mixing arguments, allocations and chains of 1-2 layout casts feeding 1-3 accelerator ops (linalg.generic) as "
                 "inputs and/or outputs in any order, also inside loops; through the real realize-memref-casts (explicit casts) or set-memory-space + "
                 "realize-memref-casts (casts inserted by the compiler); TLC runs both programs with symbolic buffer contents (a cast is an alias before, "
